@@ -42,6 +42,17 @@ Definition order_free (s : site) : bool :=
   | _ => true
   end.
 
+(* how a file of the output directory is opened *)
+Inductive wmode := WTrunc (* 'w' / 'wb': what was there is gone *) | WAppend | WExcl | WUpdate.
+Definition truncating (m : wmode) : bool := match m with WTrunc => true | _ => false end.
+
+(* wall clock *)
+Inductive clock_ctx := ClkDefaultBuildtime | ClkLocalTimer | ClkInMsg | ClkOther.
+Definition clock_harmless (c : clock_ctx) : bool := match c with ClkOther => false | _ => true end.
+Inductive bt_source := BEnvEpoch | BOption.
+Definition bt_source_eqb (a b : bt_source) : bool :=
+  match a, b with BEnvEpoch, BEnvEpoch | BOption, BOption => true | _, _ => false end.
+
 (* components of the sort-key tuples of templatewriter.util / summary (printed by the translator, INTERPRETED by
    Model/Determinism.v) *)
 Inductive kcomp :=
